@@ -26,7 +26,9 @@ class Fn:
         # produced by a derive or a foreign macro; a `macro_rules!` of this crate expands to the crate's own, hand-written code
         dv = d.get("impl_derive")
         # (the `#[automatically_derived]` attribute alone proves nothing: anyone may write it on a hand-written impl)
-        self.derived = bool(dv) and not (dv.get("kind") == "Bang" and dv.get("macro_krate") == facts.d.get("crate"))
+        # ... and "expanded from a macro of some other crate" is not "a derive whose semantics the rules know": derived means the
+        # expansion of one of the derive macros of core/std or serde_derive; a `macro_rules!` template of a dependency is ordinary code
+        self.derived = bool(dv) and dv.get("kind") == "Derive" and dv.get("macro_krate") in ("core", "std", "serde_derive")
         self.blocks = [b for b in self.mir["blocks"] if not b["cleanup"]]
         self.block_by_id = {b["id"]: b for b in self.mir["blocks"]}
         self.locals = self.mir["locals"]
@@ -337,8 +339,20 @@ class Facts:
 _loaded = {}
 
 
+EXPECTED_FLAGS = {"default": (True, True), "serde": (True, True), "release": (False, False)}
+
+
 def load(config="default", crate_dir=None, tag=None):
     key = (config, crate_dir)
     if key not in _loaded:
-        _loaded[key] = Facts(extract(config, crate_dir, target_tag=tag))
+        d = extract(config, crate_dir, target_tag=tag)
+        # the analysis assumes what each configuration means: debug assertions and overflow checks on in default / serde, off in
+        # release.  A `.cargo/config.toml` or a `[profile]` entry can change that for the analysed build only.
+        want = EXPECTED_FLAGS.get(config)
+        got = (bool(d.get("overflow_checks")), bool(d.get("debug_assertions")))
+        if want is not None and got != want:
+            from extract import ExtractError
+            raise ExtractError("configuration `%s` was built with overflow_checks=%s, debug_assertions=%s (expected %s, %s): a profile / cargo "
+                               "configuration in the tree changes what the analysed build is" % (config, got[0], got[1], want[0], want[1]))
+        _loaded[key] = Facts(d)
     return _loaded[key]
